@@ -34,7 +34,7 @@ theorem select_delete_example :
       fetchTable tname s3 = .ok ([], []) s4 ∧
       Cat s4 pt0 sch0 [(tname, setDeleted t1 4 8)] := by
   obtain ⟨s1, ptF, logs1, e1, hc1, _, _, hcase⟩ := insert_refines st0 pt0 sch0 [(tname, t0)] cat0 tname t0
-    (by simp) [] [] [] [] (by decide) (by decide) rfl (by decide) t1 16384 rfl (by decide) (by decide)
+    (by simp) [] [] [] [] (by decide) (by decide) rfl rfl (by decide) t1 16384 rfl (by decide) (by decide)
     (by decide)
   have hst : setTable [(tname, t0)] tname t1 = [(tname, t1)] := by decide
   rw [hst] at hc1
@@ -70,13 +70,13 @@ theorem update_example :
       update tname 4 [] [] s1 = .ok [⟨c_OpUpdate, 8, 12288, 4, []⟩] s2 ∧
       Cat s2 pt0 sch0 [(tname, setVal t1 4 8 [])] ∧ s2.hdr.nextLSN = 9 := by
   obtain ⟨s1, ptF, logs1, e1, hc1, _, _, hcase⟩ := insert_refines st0 pt0 sch0 [(tname, t0)] cat0 tname t0
-    (by simp) [] [] [] [] (by decide) (by decide) rfl (by decide) t1 16384 rfl (by decide) (by decide)
+    (by simp) [] [] [] [] (by decide) (by decide) rfl rfl (by decide) t1 16384 rfl (by decide) (by decide)
     (by decide)
   have hst : setTable [(tname, t0)] tname t1 = [(tname, t1)] := by decide
   rw [hst] at hc1
   rcases hcase with ⟨_, rfl, hlsn1, _⟩ | ⟨hne, _⟩
   · have hmem : (tname, t1) ∈ [(tname, t1)] := List.mem_singleton.mpr rfl
-    obtain ⟨s2, l, d, hm, _, e2, hc2, hlsn2, _⟩ := update_cat hc1 tname t1 hmem [] (by decide) 4 [] []
+    obtain ⟨s2, l, d, hm, _, e2, hc2, hlsn2, _⟩ := update_cat hc1 tname t1 hmem [] (by decide) 4 [] [] rfl
       ⟨4, false, []⟩ (by decide) rfl [] [] rfl rfl (by decide)
     have hl : l.off = 12288 := by
       simp only [t1, List.mem_singleton, Prod.mk.injEq] at hm
